@@ -4,6 +4,9 @@
 set -e
 cd "$(dirname "$0")"
 python3 ../tools/gen_extract.py
+# the modules the extraction imports must be compiled (and up to date) first
+MODS=$(cat ../coq/extraction/parts/*.txt | sed -n 's/^Require //p' | tr ' ' '\n' | sort -u | sed 's|^|theories/|; s|$|.vo|' | tr '\n' ' ')
+if [ -f ../coq/Makefile ]; then (cd ../coq && make -j16 $MODS >/dev/null 2>&1) || (cd ../coq && make $MODS 2>&1 | tail -20; exit 1); fi
 coqc -Q ../coq/theories PV ../coq/extraction/Extract.v >/dev/null
 ocamlfind ocamlopt -w -a -c model.mli
 ocamlfind ocamlopt -O2 -w -a -c model.ml 2>/dev/null || ocamlfind ocamlopt -w -a -c model.ml
